@@ -1,11 +1,13 @@
 package checks
 
 import (
+	"fmt"
 	"kvqlverif/drive"
 	"kvqlverif/gen"
 	"kvqlverif/refeval"
 	"kvqlverif/refstore"
 	"kvqlverif/rt"
+	"strings"
 )
 
 // C05 — aliases are pure abbreviations and the field cache is invisible.
@@ -45,13 +47,62 @@ func (c05) Gates(tier string, m map[string]int64) []rt.Gate {
 		rt.GateMin("columns checked against the reference", m, "ref_columns", 5000),
 		rt.GateMin("statements compared in all eight configurations", m, "compared8", 2000),
 		rt.GateMin("statements with a duplicated field name", m, "duplicate_alias", 50),
+		rt.GateMin("field names and chunk keys with colliding concatenations", m, "colliding_name_key_concatenations", 200),
 	}
 }
 
 var c05Families = []string{gen.FNum, gen.FNum, gen.FMixed, gen.FWide, gen.FTies, gen.FRel, gen.FRel, gen.FTiny, gen.FFloat}
 
+// collide: field names and keys chosen so that different (name, first key of a
+// scanned chunk) pairs have the same concatenation - name "va" with key "00"
+// and name "v" with key "a00" - the way C09's stores make value tuples collide.
+// The first chunk is rejected by the filter, so one Batch call scans both.
+func (k c05) collide(c *rt.Ctx) {
+	r := c.R
+	size := []int{1, 2, 3, 5, 32}[c.Case%5]
+	n := []string{"v", "k", "x1", "f"}[r.Intn(4)]
+	sfx := []string{"a", "b0", "_", "-"}[r.Intn(4)]
+	bq := func(name string) string { // names with a dash need backquotes
+		if strings.ContainsAny(name, "-") {
+			return "`" + name + "`"
+		}
+		return name
+	}
+	var ps []refstore.Pair
+	for i := 0; i < size; i++ {
+		ps = append(ps, refstore.Pair{K: fmt.Sprintf("%02d", i), V: []string{"a", "c", "A"}[r.Intn(3)]})
+	}
+	for i := 0; i <= size+r.Intn(3); i++ {
+		ps = append(ps, refstore.Pair{K: fmt.Sprintf("%s%02d", sfx, i), V: []string{"b", "B", "b", "x"}[r.Intn(4)]})
+	}
+	ps = refstore.New(ps).Pairs()
+	e1 := []*gen.Node{gen.Call("upper", gen.Value()), gen.Bin("+", gen.Value(), gen.Str("!")), gen.Call("strlen", gen.Key())}[r.Intn(3)]
+	e2 := gen.Call("lower", gen.Value())
+	long, short := bq(n+sfx), bq(n)
+	c1 := gen.Bin("!=", gen.Ref(long, e1), gen.Str("Q"))
+	if e1.T == gen.TN {
+		c1 = gen.Bin(">=", gen.Ref(long, e1), gen.Int(0))
+	}
+	c2 := gen.Bin("=", gen.Ref(short, e2), gen.Str("b"))
+	stmt := &gen.Stmt{Kind: "select", Fields: []gen.Field{{E: gen.Key()}, {E: e1, Alias: long}, {E: e2, Alias: short}}, Where: gen.And(c1, c2)}
+	if r.Bool() {
+		stmt.Fields[1], stmt.Fields[2] = stmt.Fields[2], stmt.Fields[1]
+	}
+	c.Rec.Inc("colliding_name_key_concatenations")
+	if c.Case%50 == 0 {
+		c.Rec.Sample(rt.D{"colliding": stmt.Text(gen.Plain), "batch_size": size, "keys": len(ps)})
+	}
+	if hit := k.judge(c, stmt, ps, ""); hit != "" {
+		k.judge(c, stmt, ps, stmt.Text(gen.Plain)) // report (the statement is already minimal)
+	}
+}
+
 func (k c05) Run(c *rt.Ctx) {
 	r := c.R
+	if r.Chance(1, 12) {
+		k.collide(c)
+		return
+	}
 	st := gen.NewStore(r, c05Families[r.Intn(len(c05Families))])
 	g := fullGenFor(c, st, r)
 	g.RefBias = r.Range(2, 4)
